@@ -2,6 +2,7 @@
    Statements only; every proof is [exact <lemma>]. *)
 From FMP Require Import Base.Bytes Base.Lts Model.Events Model.Skeleton Model.Props Model.Writer
      Model.Generated Model.Msgpack Model.Frame Proofs.WriterProofs Proofs.FrameProofs Proofs.SkeletonProofs.
+From FMP Require Import Model.CodecCfg Proofs.CodecCfgProofs.
 Open Scope Z_scope.
 
 (* however many goroutines send at once and whenever their contexts end in mid-send: every Write on the connection is
@@ -45,9 +46,14 @@ Example ex_refusal_reachable :
              /\ trace st = [AStart 3; ARet 3 RTooBig].
 Proof. eexists. split; vm_compute; reflexivity. Qed.
 
+(* the model refuses an oversize frame at the one place every sender goes through; in the source both entries of the encoder (blocking and asynchronous) take their bytes from encodeFrame, whose comparison with the maximum precedes anything it returns (regenerated censuses of codec.go) *)
+Theorem C03_every_frame_passes_the_length_check : cdf_length_checked codecfacts_now = true.
+Proof. exact codec_length_checked. Qed.
+
 Print Assumptions C03_whole_frames_and_refusals.
 Print Assumptions C03_abandon_writes_nothing.
 Print Assumptions C03_oversize_refused.
 Print Assumptions C03_accepted_is_one_frame.
 Print Assumptions C03_ctx_unblocks.
 Print Assumptions C03_generated_ok.
+Print Assumptions C03_every_frame_passes_the_length_check.
